@@ -832,7 +832,9 @@ func (s *UtxoStore) ScriptAddressUnspents(tx mwdb.ReadTransaction, scriptAddrs m
 		if !ok {
 			continue
 		}
-		cred.flags.SpentByUnmined = existsRawUnminedInput(nsUnminedInputs, itKey) != nil
+		// the pending-input bucket is keyed by the 36-byte outpoint (itKey is the
+		// wallet-prefixed unspent key)
+		cred.flags.SpentByUnmined = existsRawUnminedInput(nsUnminedInputs, canonicalOutPoint(&op.Hash, op.Index)) != nil
 
 		item := &Credit{
 			OutPoint:      op,
